@@ -7,10 +7,11 @@ starting at the tree's structural minimum (vf/structmin.py, computed from the de
 The Segment stream is cut at "\\n"; the cells of every line (non-control segments, width table of
 vf/width.py scanned by the harness, not rich.cells) must not exceed W.
 
-width sets   full : W in [struct_min, struct_min+8] u {20, 40, 80, 200}
-             short: W in [struct_min, struct_min+5] u {20, 80}          (the largest families)
+width sets   full  : W in [struct_min, struct_min+8] u {20, 40, 80, 200}
+             short : W in [struct_min, struct_min+5] u {20, 80}          (the largest thorough families)
+             narrow: W in [struct_min, struct_min+3] u {20, 80}          (quick: D1x2, D2, CH4)
 consoles     utf8 everywhere; ascii-only (file.encoding == "ascii") and legacy_windows additionally
-             on the D1 and CH3 families at W in [struct_min, struct_min+2] u {20}
+             on the D1 and CH3 families at W in {struct_min, struct_min+1, 20}
 
 A violating (tree, W) is shrunk before it is keyed: the blame descends into a child that already
 overflows when rendered alone, then every option that is not needed for the overflow is reset to
@@ -49,12 +50,14 @@ LEVEL_NOTE = ("Trusted: CPython, the CELL_WIDTHS table data, vf/gen.py (descript
 
 FULL = (8, (20, 40, 80, 200))
 SHORT = (5, (20, 80))
-ALT_CONSOLE = (2, (20,))
+NARROW = (3, (20, 80))
+ALT_CONSOLE = (1, (20,))
 
-SHORT_FAMILIES = {"quick": ("D1x2", "D2", "CH4"),
+SHORT_FAMILIES = {"quick": (),
                   "thorough": ("D1x2", "D1x3", "D2x1", "CH4", "CH4x1")}
+NARROW_FAMILIES = {"quick": ("D1x2", "D2", "CH4"), "thorough": ()}
 ALT_CONSOLE_FAMILIES = ("D1", "CH3")
-TREES_PER_SHARD = {"quick": 800, "thorough": 4000}
+TREES_PER_SHARD = {"quick": 250, "thorough": 2000}
 
 
 def widths(sm, mode):
@@ -63,6 +66,8 @@ def widths(sm, mode):
 
 
 def wmode(tier, fam_name):
+    if fam_name in NARROW_FAMILIES[tier]:
+        return NARROW
     return SHORT if fam_name in SHORT_FAMILIES[tier] else FULL
 
 
@@ -262,12 +267,13 @@ def describe(tier, seed, res):
     parts = []
     for fam in fams:
         parts.append("%s=%d trees (%s widths)" % (fam["name"], res.counters.get("trees_" + fam["name"], 0),
-                                                  "short" if fam["name"] in SHORT_FAMILIES[tier] else "full"))
+                                                  {FULL: "full", SHORT: "short", NARROW: "narrow"}[wmode(tier, fam["name"])]))
     return {
         "rule": ("Trees of vf/gen.py families [%s]; family definitions (depth, kids per container, leaf menu, number of "
                  "option deviations, alternatives per option) are in gen.families.__doc__. Each tree x every W of its "
-                 "width set (full: struct_min..struct_min+8 u {20,40,80,200}; short: struct_min..+5 u {20,80}) on the "
-                 "utf8 console; D1 and CH3 also on ascii-only and legacy_windows consoles at struct_min..+2 u {20}. "
+                 "width set (full: struct_min..struct_min+8 u {20,40,80,200}; short: struct_min..+5 u {20,80}; narrow: "
+                 "struct_min..+3 u {20,80}) on the utf8 console; D1 and CH3 also on ascii-only and legacy_windows "
+                 "consoles at struct_min, struct_min+1, 20. "
                  "An evaluation is one render; it is non-trivial when some line uses the full width W (the layout was "
                  "constrained) or exceeds it; distinct = (root kind, lines, tight, ragged, at-minimum, overflow) "
                  "signatures. Not the full option product: deviation-bounded." % "; ".join(parts)),
